@@ -90,6 +90,38 @@ def render(tree, sep, style='compact'):
             if w is not None:
                 toks.append(w)
         return ' '.join(toks)
+    if style == 'fullpad':
+        # every token and every separator is surrounded by single spaces
+        toks = []
+        for word in tree:
+            for syl in word:
+                for ph in syl:
+                    toks.append(ph)
+                    if p is not None and p != ' ':
+                        toks.append(p)
+                if p is None:
+                    pass
+                if s is not None:
+                    toks.append(s)
+            if w is not None:
+                toks.append(w)
+        return ' '.join(toks)
+    if style in ('joined', 'joined-padded'):
+        # tokens joined BY their separators, no trailing separator at any level
+        pad = ' ' if style == 'joined-padded' else ''
+
+        def j(x, items):
+            if x is None:
+                return ''.join(items)
+            if x == ' ' or not pad:
+                return x.join(items)
+            return (pad + x + pad).join(items)
+        words = tree
+        if w is None:      # no word level: one flat sequence of syllables
+            words = [[syl for word in words for syl in word]]
+        if s is None:      # no syllable level: the phones of a word are joined directly
+            words = [[[ph for syl in word for ph in syl]] for word in words]
+        return j(w, [j(s, [j(p, syl) for syl in word]) for word in words])
     raise ValueError(style)
 
 
